@@ -194,6 +194,13 @@ func c08Run(c *Ctx) {
 			}
 			c.Outcome(o)
 			n++
+			if n%301 == 0 && len(c.Conform) < 30 && !cont && (o == "ok" || o == "error-reported") && !b0cyclic(cs) {
+				cc := *cs
+				cc.MapBound = 0
+				cc.Choices = []int{}
+				raw, _ := json.Marshal(cc)
+				c.Conform = append(c.Conform, ConformRec{Case: raw, Obs: o})
+			}
 			if n%3000 == 1 {
 				c.Sample(map[string]interface{}{"features": cs.Feat, "docs": cs.Docs, "opts": cs.Opts, "fail_loads": fail})
 			}
@@ -321,6 +328,11 @@ func c08Run(c *Ctx) {
 			}
 		}
 	}
+}
+
+// b0cyclic: does the case reach a reference cycle (its output may then depend on map order)?
+func b0cyclic(cs *expCase) bool {
+	return cs.effectiveUniverse().facts(cs.Root, false).Cyclic
 }
 
 func fnvHash(s string) uint32 {
